@@ -1,4 +1,5 @@
 import Driver.Loop
 import GunYu.Drive.C06
 import GunYu.Drive.C06Att
-def main : IO Unit := Driver.run [GunYu.Drive.C06.handle, GunYu.Drive.C06Att.handle]
+import GunYu.Drive.C06Gc
+def main : IO Unit := Driver.run [GunYu.Drive.C06.handle, GunYu.Drive.C06Att.handle, GunYu.Drive.C06Gc.handle]
